@@ -370,4 +370,86 @@ func HashSetOfValueDelete
   ensures count: ret1.flag == value.UNDEFINED_FLAG ==> hashSet.elements == old(hashSet.elements) - ite(ret0, 1, 0)
   ensures others: forall p int :: 0 <= p && p < len(hashSet.table) && hsLive(elem(hashSet.table, p)) ==> elem(hashSet.table, p) == old(elem(hashSet.table, p))
   ensures kept: forall p int :: 0 <= p && p < len(hashSet.table) && old(hsLive(elem(hashSet.table, p))) && !old(eqv(vm, elem(hashSet.table, p), val)) ==> elem(hashSet.table, p) == old(elem(hashSet.table, p))
+
+// ==== hash maps as finite maps (C17) =====================================================
+// slot states: empty (key and value undefined), tombstone (key undefined, value defined), live
+spec fn mKey(t []value.PairOfValue, j int) value.Value = elem(t, j).key
+spec fn mVal(t []value.PairOfValue, j int) value.Value = elem(t, j).value
+spec fn mEmpty(t []value.PairOfValue, j int) bool = hsEmpty(mKey(t, j)) && hsEmpty(mVal(t, j))
+spec fn mLive(t []value.PairOfValue, j int) bool = !hsEmpty(mKey(t, j))
+spec fn mTomb(t []value.PairOfValue, j int) bool = hsEmpty(mKey(t, j)) && !hsEmpty(mVal(t, j))
+spec fn wfProbeM(vm *Thread, t []value.PairOfValue) bool = forall j int, p int :: 0 <= j && j < len(t) && 0 <= p && p < len(t) && mLive(t, j) && between(home(vm, mKey(t, j), len(t)), p, j) ==> !mEmpty(t, p)
+// lookup(vm, t, k, v): the map binds a key equal to k to v
+spec fn mHas(vm *Thread, t []value.PairOfValue, k value.Value) bool = exists j int :: 0 <= j && j < len(t) && mLive(t, j) && eqv(vm, mKey(t, j), k)
+
+spec rec fn mLiveCount(t []value.PairOfValue, k int) int = ite(k <= 0, 0, mLiveCount(t, k - 1) + ite(mLive(t, k - 1), 1, 0))
+spec rec fn mOccCount(t []value.PairOfValue, k int) int = ite(k <= 0, 0, mOccCount(t, k - 1) + ite(mEmpty(t, k - 1), 0, 1))
+
+lemma mCountRange(t []value.PairOfValue, k int)
+  props C17
+  requires 0 <= k && k <= len(t)
+  ensures 0 <= mLiveCount(t, k) && mLiveCount(t, k) <= mOccCount(t, k) && mOccCount(t, k) <= k
+  induction k from 0
+
+lemma mCountZero(t []value.PairOfValue, k int, j int)
+  props C17
+  requires 0 <= j && j < k && k <= len(t) && mLiveCount(t, k) == 0
+  ensures !mLive(t, j)
+  uses mCountRange
+  induction k from 0
+
+lemma mCountUpdate(t []value.PairOfValue, u []value.PairOfValue, i int, k int)
+  props C17
+  requires 0 <= k && k <= len(t) && k <= len(u) && 0 <= i
+  requires forall j int :: 0 <= j && j < k && j != i ==> old(mKey(t, j)) == mKey(u, j) && old(mVal(t, j)) == mVal(u, j)
+  ensures mLiveCount(u, k) == old(mLiveCount(t, k)) + ite(i < k, ite(mLive(u, i), 1, 0) - ite(old(mLive(t, i)), 1, 0), 0)
+  ensures mOccCount(u, k) == old(mOccCount(t, k)) + ite(i < k, ite(mEmpty(u, i), 0, 1) - ite(old(mEmpty(t, i)), 0, 1), 0)
+  induction k from 0
+
+spec fn wfMap(vm *Thread, m *HashMapOfValue) bool = m != nil && len(m.Table) == cap(m.Table) && wfProbeM(vm, m.Table) && m.Elements == mLiveCount(m.Table, len(m.Table)) && m.OccupiedSlots == mOccCount(m.Table, len(m.Table))
+
+func HashMapOfValueIndex
+  props C17
+  requires hashMap != nil && len(hashMap.Table) >= 1 && wfProbeM(vm, hashMap.Table)
+  assigns nothing
+  ensures range: ret1.flag == value.UNDEFINED_FLAG ==> -1 <= ret0 && ret0 < len(hashMap.Table)
+  ensures hit: ret1.flag == value.UNDEFINED_FLAG && ret0 >= 0 && mLive(hashMap.Table, ret0) ==> eqv(vm, mKey(hashMap.Table, ret0), key)
+  ensures path: ret1.flag == value.UNDEFINED_FLAG && ret0 >= 0 ==> forall p int :: 0 <= p && p < len(hashMap.Table) && between(home(vm, key, len(hashMap.Table)), p, ret0) ==> !mEmpty(hashMap.Table, p)
+  ensures absent: ret1.flag == value.UNDEFINED_FLAG && !(ret0 >= 0 && mLive(hashMap.Table, ret0)) ==> forall j int :: 0 <= j && j < len(hashMap.Table) && mLive(hashMap.Table, j) ==> !eqv(vm, mKey(hashMap.Table, j), key)
+  ensures full: ret1.flag == value.UNDEFINED_FLAG && ret0 == -1 ==> forall p int :: 0 <= p && p < len(hashMap.Table) ==> !mEmpty(hashMap.Table, p)
+  loop 1
+    invariant capacity == len(hashMap.Table) && 0 <= index && index < capacity && 0 <= startIndex && startIndex < capacity && startIndex == home(vm, key, capacity) && -1 <= deletedIndex && deletedIndex < capacity
+    invariant hashOk(vm, key) && hash == hashOf(vm, key)
+    invariant visited: forall p int :: 0 <= p && p < capacity && between(startIndex, p, index) ==> !mEmpty(hashMap.Table, p) && (mLive(hashMap.Table, p) ==> eqOk(vm, mKey(hashMap.Table, p), key) && !eqv(vm, mKey(hashMap.Table, p), key))
+    invariant tomb: deletedIndex != -1 ==> between(startIndex, deletedIndex, index) && mTomb(hashMap.Table, deletedIndex)
+
+// looking a key up: the bound value when the map has an equal key, undefined (nil) otherwise
+func HashMapOfValueGet
+  props C17
+  uses mCountZero, mCountRange
+  requires wfMap(vm, hashMap)
+  assigns nothing
+  ensures absent: ret1.flag == value.UNDEFINED_FLAG && !mHas(vm, hashMap.Table, key) ==> hsEmpty(ret0)
+  ensures present: ret1.flag == value.UNDEFINED_FLAG && mHas(vm, hashMap.Table, key) ==> exists j int :: 0 <= j && j < len(hashMap.Table) && mLive(hashMap.Table, j) && eqv(vm, mKey(hashMap.Table, j), key) && ret0 == mVal(hashMap.Table, j)
+
+func HashMapOfValueContainsKey
+  props C17
+  uses mCountZero, mCountRange
+  requires wfMap(vm, hashMap)
+  assigns nothing
+  ensures yes: ret1.flag == value.UNDEFINED_FLAG && ret0 ==> mHas(vm, hashMap.Table, key)
+  ensures no: ret1.flag == value.UNDEFINED_FLAG && !ret0 ==> !mHas(vm, hashMap.Table, key)
+
+func HashMapOfValueDelete
+  props C17
+  uses mCountZero, mCountRange, mCountUpdate
+  requires wfMap(vm, hashMap)
+  ensures wfP: ret1.flag == value.UNDEFINED_FLAG ==> wfProbeM(vm, hashMap.Table)
+  ensures wfL: ret1.flag == value.UNDEFINED_FLAG ==> hashMap.Elements == mLiveCount(hashMap.Table, len(hashMap.Table))
+  ensures wfO: ret1.flag == value.UNDEFINED_FLAG ==> hashMap.OccupiedSlots == mOccCount(hashMap.Table, len(hashMap.Table))
+  ensures hdr: hashMap.Table == old(hashMap.Table)
+  ensures noNewEmpty: forall p int :: 0 <= p && p < len(hashMap.Table) && !old(mEmpty(hashMap.Table, p)) ==> !mEmpty(hashMap.Table, p)
+  ensures found: ret1.flag == value.UNDEFINED_FLAG ==> (ret0 <==> old(mHas(vm, hashMap.Table, key)))
+  ensures count: ret1.flag == value.UNDEFINED_FLAG ==> hashMap.Elements == old(hashMap.Elements) - ite(ret0, 1, 0)
+  ensures kept: forall p int :: 0 <= p && p < len(hashMap.Table) && old(mLive(hashMap.Table, p)) && !old(eqv(vm, mKey(hashMap.Table, p), key)) ==> mKey(hashMap.Table, p) == old(mKey(hashMap.Table, p)) && mVal(hashMap.Table, p) == old(mVal(hashMap.Table, p))
 @*/
